@@ -8,7 +8,8 @@ Kinds == {"word", "star", "decimal", "int0", "estr", "str", "dstr", "bstr", "dq"
           "paren", "eq", "comma", "param", "nlstr",
           \* doubled single quotes inside a double-quoted literal; a statement separator inside quotes / a quoted name
           "dq2sq", "semistr", "semibq"}
-Seps == {"sp", "sp2", "nl", "nlind", "blockcmt", "linecmt", "nl2"}
+\* "none": the tokens are written without anything between them (where that still lexes as the same tokens)
+Seps == {"sp", "sp2", "nl", "nlind", "blockcmt", "linecmt", "nl2", "none"}
 Init == c \in UNION {{[ks |-> ks, sep |-> s] : ks \in [1..n -> Kinds], s \in Seps} : n \in 1..N}
 Next == UNCHANGED c
 Spec == Init /\ [][Next]_c
